@@ -10,6 +10,7 @@ import Cicada.Model.ScriptRun
 import Cicada.Spec.C14
 import Cicada.Spec.C15
 import Cicada.Spec.C06
+import Cicada.Model.History
 import Cicada.Spec.C17
 import Cicada.Spec.C03
 import Cicada.Spec.C01
@@ -644,6 +645,29 @@ def answer (stream : String) (f : Array String) : Ans :=
     let w := ops.foldl C06.worldStep []
     let m := "|".intercalate outs
     { m := m ++ "#" ++ viewOut (C06.modelView s), s := (m ++ "#" ++ viewOut (C06.specView w)), guard := g 1, cls := g 2 }
+  | "hist" =>
+    -- ops: `A:hexdir:hexline`, `L:hexpattern`, `D:id.id` separated by `;`
+    let ops := (g 0).splitOn ";"
+    let (db, outs) := ops.foldl (fun (acc : Hist.Db × List String) o =>
+      match o.splitOn ":" with
+      | ["A", d, l] => (Hist.add acc.1 (unhex l) (unhex d), acc.2 ++ ["ok"])
+      | ["L", pat] => (acc.1, acc.2 ++ [hexList (Hist.list acc.1 (unhex pat))])
+      | ["D", ids] => (Hist.delete acc.1 (natList ids), acc.2 ++ ["ok"])
+      | _ => acc) ({}, [])
+    let rows := if db.rows.isEmpty then "[]" else ",".intercalate (db.rows.map fun r => s!"{r.rowid}:{hex r.inp}:{hex r.dir}")
+    let m := "|".intercalate outs ++ "#" ++ rows
+    -- spec: the same table with the text stored verbatim (no trimming)
+    let (dbS, outsS) := ops.foldl (fun (acc : Hist.Db × List String) o =>
+      match o.splitOn ":" with
+      | ["A", d, l] => ({ rows := acc.1.rows ++ [{ rowid := acc.1.next, inp := unhex l, dir := unhex d }] }, acc.2 ++ ["ok"])
+      | ["L", pat] => (acc.1, acc.2 ++ [hexList (Hist.list acc.1 (unhex pat))])
+      | ["D", ids] => (Hist.delete acc.1 (natList ids), acc.2 ++ ["ok"])
+      | _ => acc) ({}, [])
+    let rowsS := if dbS.rows.isEmpty then "[]" else ",".intercalate (dbS.rows.map fun r => s!"{r.rowid}:{hex r.inp}:{hex r.dir}")
+    let trimmed := ops.any (fun o => match o.splitOn ":" with
+      | ["A", _, l] => trim (unhex l) ≠ unhex l
+      | _ => false)
+    { m := m, s := "|".intercalate outsS ++ "#" ++ rowsS, guard := if trimmed then "0" else "1", cls := if trimmed then "trim" else "-" }
   | "globneeds" =>
     -- which patterns will `expand_glob` hand to the glob crate for this case (f2: line | line1 | tokens)
     let es := envIn (g 0)
